@@ -33,6 +33,7 @@ import re
 import time
 
 from vlib import common as V
+from vlib import nasty
 
 # ---------------------------------------------------------------------------------------
 # canonical forms
@@ -230,6 +231,10 @@ def nest_depth(x):
 
 
 def spec_kind(spec):
+    if spec[0] == "nest" and len(spec) > 2:
+        return spec[2] + ("-lazy" if "L" in json.dumps(spec[1]) else "")
+    if spec[0] == "int" and abs(spec[1]) >= 7:
+        return "int-out-of-range"
     if spec[0] == "nest":
         x = spec[1]
         txt = json.dumps(x)
@@ -370,6 +375,50 @@ def elem_case_(item):
     return ("bad" if bad else "ok", {"error": err, "bad": bad})
 
 
+COMPANIONS_Q = [("list", [1, 2, 3]), ("lazy", [1, 2, 3], 0), ("int", 2)]
+COMPANIONS = COMPANIONS_Q + [("str", "abc"), ("list", [[1, 2], [3, 4]]), ("nest", [[1, 2], [3]]), ("int", 0), ("int", -1),
+                             ("lazy", [[1, 2], [3]], 1), ("fun", "⁽+")]
+HUGE = 10 ** 5
+
+
+def degenerate_tuples(arity, env, intense=False):
+    """Degenerate list / index / shape arguments (vlib.nasty) at EVERY position of EVERY element:
+    empty lists first / middle / last, nested empties, singletons, lists of lists of indices,
+    their lazy versions, and negative / out-of-range / huge numbers, each crossed with companions
+    (an eager list, a lazy list, a number, ...) at the other positions."""
+    q = not env.thorough and not intense
+    shapes = [("nest", x, "degenerate") for x in nasty.degenerate_shapes(("outer",) if q else ("outer", "inner", "all"))]
+    nums = [("int", n) for n in nasty.NASTY_INDEXES]
+    comps = COMPANIONS_Q if q else COMPANIONS
+    core = [("nest", x, "degenerate") for x in nasty.DEGENERATE_SHAPES_CORE]
+    if arity == 1:
+        return [(x,) for x in shapes]
+    out = []
+    if arity == 2:
+        for x in shapes + nums:
+            for c in comps:
+                if x[0] == "int" and c[0] in ("int", "str", "rat"):
+                    continue              # no mutable argument in the tuple
+                out += [(x, c), (c, x)]
+        out += [(a, b) for a in core for b in core] + [(a, b) for a in core for b in nums] + [(b, a) for a in core for b in nums]
+        return out
+    if arity == 3:
+        c3 = COMPANIONS_Q if q else COMPANIONS[:6]
+        for x in shapes + nums:
+            for a in c3:
+                for b in c3:
+                    if x[0] == "int" and a[0] in ("int", "str") and b[0] in ("int", "str"):
+                        continue
+                    out += [(x, a, b), (a, x, b), (a, b, x)]
+        out += [(a, b, c) for a in comps[:2] for b in core for c in core] + [(a, b, c) for a in core for b in core for c in comps[:3]]
+        return out
+    return []
+
+
+def has_huge(t):
+    return any(sp[0] == "int" and abs(sp[1]) >= HUGE for sp in t)
+
+
 def arg_tuples(arity, env, intense=False):
     """intense: the argument set of the thorough tier plus every shape, used on every run for the
     elements the static summary flags (a pinned suspect is where a regression hides from the
@@ -412,7 +461,9 @@ def part1(env, E, static):
             skipped[key] = f"arity {arity}"
             continue
         ts = arg_tuples(arity, env, intense=key in static["flagged_elements"])
+        ts += degenerate_tuples(arity, env, intense=key in static["flagged_elements"])
         env.rng.shuffle(ts)            # so that an element that loops on one kind of argument still sees the others
+        ts.sort(key=has_huge)          # stable: huge numbers last, where a time-out costs only them
         for t in ts:
             items.append((key, t))
     t0 = time.time()
@@ -471,7 +522,7 @@ def part1(env, E, static):
 
 # mutate the list they are given by design: that list is the interpreter's stack
 STACK_PRIMITIVES = {"pop": "pops from / pushes back to the stack it is given", "function_call": "its argument is the stack"}
-FILLERS = [("int", 2), ("list", [1, 2]), ("str", "ab")]
+FILLERS = [("int", 2), ("list", [1, 2]), ("str", "ab")] + [("nest", x) for x in nasty.DEGENERATE_SHAPES_CORE] + [("int", -1), ("int", 7)]
 
 
 def fn_case(item):
@@ -541,7 +592,7 @@ def part1b(env, an):
     import vyxal.helpers as H
     work = collections.OrderedDict()
     skipped = {}
-    shapes = [m for m in MUTABLES if m[0] != "fun"] + SHAPES
+    shapes = [m for m in MUTABLES if m[0] != "fun"] + SHAPES + [("nest", x) for x in nasty.degenerate_shapes(("outer", "all"))]
     for name, ps in (an.get("flagged_functions") or {}).items():
         if name in STACK_PRIMITIVES:
             skipped[name] = STACK_PRIMITIVES[name]
@@ -560,9 +611,13 @@ def part1b(env, an):
         for pos, pname in enumerate(req):
             if pname not in flagged:
                 continue
+            others = [j for j in range(len(req)) if j != pos]
             for sh in shapes:
                 for fill in FILLERS:
                     tuples.append(tuple(sh if j == pos else fill for j in range(len(req))))
+                    # and each other position alone takes the filler, the rest a plain number
+                    for o in others:
+                        tuples.append(tuple(sh if j == pos else (fill if j == o else ("int", 2)) for j in range(len(req))))
         seen, uniq = set(), []
         for t in tuples:
             k = json.dumps(t)
@@ -636,6 +691,21 @@ def code_of(text):
     return c
 
 
+# values that cannot be written as literals inside a program (a nested empty list literal picks up
+# the enclosing stack) come in as INPUT: the token ?#n stands for `?` reading INPUT_SHAPES[n]
+INPUT_SHAPES = nasty.degenerate_shapes(("outer",))
+
+
+def input_token(n):
+    return f"?#{n}"
+
+
+def show_seq(seq):
+    txt = "".join("?" if t.startswith("?#") else t for t in seq)
+    ins = [nasty.shape_text(INPUT_SHAPES[int(t[2:])]) for t in seq if t.startswith("?#")]
+    return txt, ins
+
+
 def run_copy(value, form, seq):
     """-> (list of canonical values pushed back by the suffix, error class of the sequence)"""
     ns = dict(_ns())
@@ -649,6 +719,11 @@ def run_copy(value, form, seq):
         exec(code_of(value + prefix), ns)
         try:
             for tok in seq:
+                if tok.startswith("?#"):
+                    from vyxal.LazyList import LazyList
+                    ctx.inputs[0][0][:] = [nasty.build_shape(INPUT_SHAPES[int(tok[2:])], LazyList)[0]]
+                    ctx.inputs[0][1] = 0
+                    tok = "?"
                 exec(code_of(tok), ns)
         except _Late:
             raise
@@ -712,10 +787,15 @@ def elem_key_of(tok, keys):
 def part2(env, E, static):
     keys = set(E.elements)
     suspects = [k for k in static["flagged_elements"] if k in keys and k not in SKIP_KEYS]
+    core_inputs = [input_token(i) for i, x in enumerate(INPUT_SHAPES) if x in list(nasty.DEGENERATE_SHAPES_CORE)]
     alpha = list(dict.fromkeys(CORE + suspects + LITERALS))
-    seqs = [(a,) for a in alpha] + [(a, b) for a in alpha for b in alpha]
-    # the shapes of the recorded findings: index / value literals in front of a triadic suspect
-    seqs += [("0 ", "9 ", k) for k in suspects if E.elements[k][1] == 3] + [("1 ", "⁽›", k) for k in suspects if E.elements[k][1] == 3]
+    seqs = [(a,) for a in alpha] + [(a, b) for a in alpha for b in alpha] + [(a, b) for a in core_inputs for b in alpha]
+    # two operands in front of every triadic element of the table: numbers (also negative, out of
+    # range) and every degenerate shape as the middle operand, a number / list / function as the last
+    all_lits = [input_token(i) for i in range(len(INPUT_SHAPES))] + [nasty.vyxal_literal(n) + " " for n in nasty.NASTY_INDEXES[:8]]
+    triadic = [k for k in E.elements if E.elements[k][1] == 3 and k not in SKIP_KEYS]
+    operand_family = {(a, b, k) for k in triadic for a in all_lits for b in ("9 ", "⟨7⟩", "⁽›")}
+    seqs += sorted(operand_family)
     if env.thorough:
         a3 = list(dict.fromkeys(CORE3 + [k for k in suspects if k in ("Ȧ", "Ḟ", "¨M", "*", "Þ℅", "²", "ÞD", "ÞḊ")] + LITERALS3))
         seqs += [t for t in itertools.product(a3, repeat=3)]
@@ -733,6 +813,8 @@ def part2(env, E, static):
                     continue
                 if len(s) == 3 and s[0] not in LITERALS and (fi not in quick_forms[VALUES[vi][1]] or VALUES[vi][1] in ("lazy-map", "fun")):
                     continue           # length 3: the reduced value x form matrix
+                if not env.thorough and s in operand_family and (VALUES[vi][1] not in ("flat-eager", "lazy") or fi not in (0, 1, 3)):
+                    continue
                 items.append((vi, fi, s))
     t0 = time.time()
     res = V.pmap(copy_case, items, timeout=900.0, procs=min(V.NPROC, 8), chunksize=128)
@@ -756,14 +838,17 @@ def part2(env, E, static):
             nontrivial.append(f"p:{vi}:{fi}:{''.join(seq)}")
         if status == "bad":
             k = elem_key_of(d["blame"][-1], keys)
-            failing[k].append((VALUES[vi][0] + FORMS[fi][1] + "".join(seq) + FORMS[fi][2], FORMS[fi][0], d))
+            txt, ins = show_seq(seq)
+            failing[k].append((VALUES[vi][0] + FORMS[fi][1] + txt + FORMS[fi][2], FORMS[fi][0], d, ins))
     for k, lst in failing.items():
-        lst.sort(key=lambda x: len(x[0]))
-        prog, form, d = lst[0]
+        lst.sort(key=lambda x: len(x[0]) + sum(len(i) for i in x[3]))
+        prog, form, d, ins = lst[0]
         inp = {"program": prog, "form": form}
+        if ins:
+            inp["inputs"] = ins
         from vlib import runprog
-        e2e = runprog.run(prog, inputs=["2", "3"])
-        msg = (f"copy program {prog}: the untouched reference should be {d['want']}, is {', '.join(d['got'])} "
+        e2e = runprog.run(prog, inputs=ins if ins and not any("LazyList" in i for i in ins) else ["2", "3"])
+        msg = (f"copy program {prog}{' with input ' + ' '.join(ins) if ins else ''}: the untouched reference should be {d['want']}, is {', '.join(d['got'])} "
                f"(blamed element {k}; {len(lst)} failing programs; run end to end the program prints {e2e['out'].strip()!r})")
         env.fail(inp, msg, cls=f"C10:{k}")
         if k in keys and k not in static["flagged_elements"]:
